@@ -176,6 +176,42 @@ def getSpace (gens : List PS) (ms : List MorphR) : Except Err (Option (List PS))
   let all := PS.genAll n
   selectDependents gens.length ms (← Graph.collInit all)
 
+/-! ### C02: shape of a canonical graph -/
+
+/-- the edges a star of legs must have: centre–first vertex of every leg, and
+consecutive vertices inside a leg -/
+def starEdges (legs : List (List PS)) : List (PS × PS) :=
+  match legs with
+  | [] => []
+  | cleg :: rest =>
+    match cleg with
+    | [] => []
+    | c :: _ => rest.flatMap (fun leg => (match leg with | [] => [] | a :: _ => [(c, a)]) ++ leg.zip (leg.drop 1))
+
+def isStarEdge (legs : List (List PS)) (a b : PS) : Bool :=
+  (starEdges legs).any (fun (x, y) => (x.beq a && y.beq b) || (x.beq b && y.beq a))
+
+/-- `none` = the legs are a canonical star: centre leg is one vertex, vertices
+distinct, no empty leg, at most one leg longer than two, legs ordered by
+non-decreasing length, and two vertices anticommute exactly when they are joined
+by a star edge.  Otherwise the reason. -/
+def shapeCheck (legs : List (List PS)) : Except Err (Option String) := do
+  match legs with
+  | [] => return some "empty"
+  | cleg :: rest =>
+    if cleg.length != 1 then return some "centre leg is not a single vertex"
+    let vs := legs.flatten
+    if (Graph.dedupPS vs).length != vs.length then return some "vertices not distinct"
+    if rest.any (fun l => l.isEmpty) then return some "empty leg"
+    if (rest.filter (fun l => l.length > 2)).length > 1 then return some "more than one long leg"
+    let lens := rest.map List.length
+    if !(lens.zip (lens.drop 1)).all (fun (a, b) => a ≤ b) then return some "legs not sorted by length"
+    for (a, b) in Graph.combinations2 vs do
+      let anti := !(← a.commutesWith b)
+      if anti != isStarEdge legs a b then
+        return some s!"edge mismatch at {a},{b}: anticommute={anti} star-edge={isStarEdge legs a b}"
+    return none
+
 /-! ### Invariants of a finite closed set of Pauli strings and of a named algebra
 (the verified per-input checker of C01/C09/C19) -/
 
